@@ -133,12 +133,12 @@ Section Ext.
   Lemma path_add_nosep E J n F K :
     existsb (Z.eqb SEP) n = false ->
     exists p1, path_add (mkPath E (J ++ rev n) (len (J ++ rev n)) F K true) (len n) = (0, p1) /\
-               pelems p1 = E ++ [n] /\ pbuf p1 = true.
+               pelems p1 = E ++ [n] /\ bufok p1.
   Proof.
-    intros NS. unfold path_add. cbn [pbuf negb plen pelems].
+    intros NS. unfold path_add. cbn [pbuf negb plen pelems pbin].
     assert (L : len n <= len (J ++ rev n)) by (unfold len; rewrite app_length, rev_length; lia).
     pose proof (len_nonneg n). zb. cbn [orb].
-    rewrite firstn_ppost, NS. eexists. split; [reflexivity|]. split; reflexivity.
+    rewrite firstn_ppost, NS. eexists. split; [reflexivity|]. split; [reflexivity|split; reflexivity].
   Qed.
 
   Lemma option_assign_value adderr d n v rest s E J F K :
@@ -148,14 +148,14 @@ Section Ext.
       option_assign f take adderr (hws (d_mid2 d) ++ print_value d v ++ hws (d_trail d) ++ tail_comment d ++ 10 :: rest) s
       = ((match v with [] => 3 | _ => 7 end), rest, s') /\
       pelems (pth s') = E ++ [n] /\ pcurr s' = pcurr s /\ valid s' = len v /\
-      (v <> [] -> post_read s' (len v) = Some v).
+      (v <> [] -> post_read s' (len v) = Some v) /\ pbin (pth s') = false.
   Proof.
     intros HP HV NE NK NS WV. unfold option_assign.
     rewrite (ncheck_name s _ _ _ _ _ take HP HV NE), NK. zb.
     rewrite HP, HV. destruct (path_add_nosep E J n F K NS) as (p1 & PA & PE & PB).
     rewrite PA. zb. rewrite (invalidate_buf p1 PB), PE.
     set (s4 := mkPst _ _ _ _ _). rewrite parse_data_ext.
-    destruct (parse_data_value d v rest s4 (E ++ [n]) (pfirst p1) WV) as (s5 & E5 & Q1 & Q2 & Q3 & Q4 & Q5);
+    destruct (parse_data_value d v rest s4 (E ++ [n]) (pfirst p1) WV) as (s5 & E5 & Q1 & [Q2 QN] & Q3 & Q4 & Q5);
       [reflexivity|reflexivity|].
     rewrite E5. pose proof (len_nonneg v).
     exists s5. subst s4. cbn [pcurr] in Q3.
@@ -213,7 +213,7 @@ Section Ext.
     exists s',
       option_loop f take c1 l s = ((match v with [] => 3 | _ => 7 end), rest, s') /\
       pelems (pth s') = E ++ [n0 :: n'] /\ pcurr s' = pcurr s /\ valid s' = len v /\
-      (v <> [] -> post_read s' (len v) = Some v).
+      (v <> [] -> post_read s' (len v) = Some v) /\ pbin (pth s') = false.
   Proof.
     intros [NC NE NF NL _ NK NLEN] WV FB HP HV EL.
     set (tl0 := hws (d_mid2 d) ++ print_value d v ++ hws (d_trail d) ++ tail_comment d ++ 10 :: rest) in *.
@@ -257,7 +257,7 @@ Section Ext.
                         hws (d_mid2 d) ++ print_value d v ++ hws (d_trail d) ++ tail_comment d ++ 10 :: rest) s0
       = ((match v with [] => 3 | _ => 7 end), rest, s') /\
       pelems (pth s') = E ++ [n0 :: n'] /\ pcurr s' = 11 /\ valid s' = len v /\
-      (v <> [] -> post_read s' (len v) = Some v).
+      (v <> [] -> post_read s' (len v) = Some v) /\ pbin (pth s') = false.
   Proof.
     intros ET WN WV HP HV.
     set (tl0 := hws (d_mid2 d) ++ print_value d v ++ hws (d_trail d) ++ tail_comment d ++ 10 :: rest).
@@ -327,7 +327,7 @@ Lemma section_add_gen take s E J n F K cur rest :
   n <> [] -> ncheck_go n true take = 0 -> existsb (Z.eqb SEP) n = false ->
   pth s = mkPath E (J ++ rev n) (len (J ++ rev n)) F K true -> valid s = len n ->
   exists s', section_add take cur rest s = (PSection, rest, s') /\
-             pelems (pth s') = E ++ [n] /\ pbuf (pth s') = true /\ pcurr s' = cur.
+             pelems (pth s') = E ++ [n] /\ bufok (pth s') /\ pcurr s' = cur.
 Proof.
   intros NE NK NS HP HV. unfold section_add.
   assert (P1 : pth (with_curr s cur) = mkPath E (J ++ rev n) (len (J ++ rev n)) F K true) by now rewrite pth_with_curr.
@@ -429,7 +429,7 @@ Section Enc.
   Lemma enc_section_name d n rest s E :
     wfe (asect a) n -> ready s E ->
     exists s', enc_section fe a (n ++ name_end d ++ rest) s = (PSection, rest, s') /\
-               pelems (pth s') = E ++ [n] /\ pbuf (pth s') = true /\ pcurr s' = Z.lor PSection PName /\ valid s' = 0.
+               pelems (pth s') = E ++ [n] /\ bufok (pth s') /\ pcurr s' = Z.lor PSection PName /\ valid s' = 0.
   Proof.
     intros [NC NE NK NLEN] RD. destruct n as [|n0 n']; [now destruct NE|].
     pose proof (Forall_inv NC) as H0. cbn beta in H0. apply onc_spec in H0 as H0'.
@@ -459,7 +459,7 @@ Section Enc.
     exists s',
       format_enc fe a prev (print_opt d n v ++ rest) s = ((match v with [] => 3 | _ => 7 end), rest, s') /\
       pelems (pth s') = E ++ [n] /\ pcurr s' = 11 /\ valid s' = len v /\
-      (v <> [] -> post_read s' (len v) = Some v).
+      (v <> [] -> post_read s' (len v) = Some v) /\ pbin (pth s') = false.
   Proof.
     intros PV WN N37 WV RD. unfold print_opt. rewrite <- !app_assoc.
     destruct n as [|n0 n']; [now destruct (wo_ne _ _ _ WN)|].
@@ -486,7 +486,7 @@ Section Enc.
   Lemma enc_open d n rest s prev :
     prev <> PSectEnd -> wfe (asect a) n -> ready s [] ->
     exists s', format_enc fe a prev (lead d ++ [37] ++ n ++ name_end d ++ rest) s = (PSection, rest, s') /\
-               pelems (pth s') = [n] /\ pbuf (pth s') = true /\ pcurr s' = Z.lor PSection PName.
+               pelems (pth s') = [n] /\ bufok (pth s') /\ pcurr s' = Z.lor PSection PName.
   Proof.
     intros PV WN RD. unfold format_enc. change (sstart fe =? send fe) with true. cbv iota.
     apply Z.eqb_neq in PV. rewrite PV. unfold nextvis. rewrite (nextvis_go_ext fe dfmt_fe).
@@ -505,7 +505,7 @@ Section Enc.
   Lemma enc_close d rest s E x prev :
     prev <> PSectEnd -> ready s (x :: E) ->
     exists s', format_enc fe a prev (lead d ++ [37] ++ rest) s = (PSectEnd, rest, s') /\
-               pelems (pth s') = x :: E /\ pcurr s' = PSectEnd.
+               pelems (pth s') = x :: E /\ pcurr s' = PSectEnd /\ pbin (pth s') = false.
   Proof.
     intros PV RD. unfold format_enc. change (sstart fe =? send fe) with true. cbv iota.
     apply Z.eqb_neq in PV. rewrite PV. unfold nextvis. rewrite (nextvis_go_ext fe dfmt_fe).
@@ -514,13 +514,13 @@ Section Enc.
     assert (PE : pelems (pth (tick s1 37)) = x :: E).
     { autorewrite with pst. rewrite S1. destruct RD as (R1 & _). exact R1. }
     rewrite PE. change (sstart fe) with 37. zb. cbn [andb].
-    eexists. split; [reflexivity|]. autorewrite with pst. rewrite S1. destruct RD as (R1 & _). auto.
+    eexists. split; [reflexivity|]. autorewrite with pst. rewrite S1. destruct RD as (R1 & _ & _ & (_ & RN) & _). auto.
   Qed.
 
   Lemma enc_reopen d n rest s :
     wfe (asect a) n -> ready s [] ->
     exists s', format_enc fe a PSectEnd (n ++ name_end d ++ rest) s = (PSection, rest, s') /\
-               pelems (pth s') = [n] /\ pbuf (pth s') = true /\ pcurr s' = Z.lor PSection PName.
+               pelems (pth s') = [n] /\ bufok (pth s') /\ pcurr s' = Z.lor PSection PName.
   Proof.
     intros WN RD. unfold format_enc. change (sstart fe =? send fe) with true. cbv iota.
     change (PSectEnd =? PSectEnd) with true. cbv iota.
@@ -675,7 +675,7 @@ Section Sep.
   Lemma sep_section_name d n rest s E :
     wfs n -> ready s E ->
     exists s', sep_first fs a (hws (d_mid1 d) ++ n ++ hws (d_mid2 d) ++ 93 :: rest) s = (PSection, rest, s') /\
-               pelems (pth s') = E ++ [n] /\ pbuf (pth s') = true /\ pcurr s' = Z.lor PSection PName.
+               pelems (pth s') = E ++ [n] /\ bufok (pth s') /\ pcurr s' = Z.lor PSection PName.
   Proof.
     intros [NC NE NF NL NK NLEN] RD. destruct n as [|n0 n']; [now destruct NE|]. cbn [hd] in NF.
     pose proof (Forall_inv NC) as H0. cbn beta in H0. apply snc_spec in H0 as H0'.
@@ -718,7 +718,7 @@ Section Sep.
     exists s',
       format_sep fs a prev (print_opt d n v ++ rest) s = ((match v with [] => 3 | _ => 7 end), rest, s') /\
       pelems (pth s') = E ++ [n] /\ pcurr s' = 11 /\ valid s' = len v /\
-      (v <> [] -> post_read s' (len v) = Some v).
+      (v <> [] -> post_read s' (len v) = Some v) /\ pbin (pth s') = false.
   Proof.
     intros PV WN N91 WV RD. unfold print_opt. rewrite <- !app_assoc.
     destruct n as [|n0 n']; [now destruct (wo_ne _ _ _ WN)|].
@@ -742,7 +742,7 @@ Section Sep.
     prev = 1 \/ prev = 9 \/ prev = 11 -> wfs n -> ready s [] ->
     exists s', format_sep fs a prev (lead d ++ [91] ++ hws (d_mid1 d) ++ n ++ hws (d_mid2 d) ++ [93] ++ rest) s
                = (PSection, rest, s') /\
-               pelems (pth s') = [n] /\ pbuf (pth s') = true /\ pcurr s' = Z.lor PSection PName.
+               pelems (pth s') = [n] /\ bufok (pth s') /\ pcurr s' = Z.lor PSection PName.
   Proof.
     intros PV WN RD. unfold format_sep. rewrite (land15_ok prev PV).
     unfold nextvis. rewrite (nextvis_go_ext fs dfmt_fs).
@@ -760,7 +760,7 @@ Section Sep.
   Lemma sep_close d rest s E x prev :
     prev = 1 \/ prev = 9 \/ prev = 11 -> ready s (x :: E) ->
     exists s', format_sep fs a prev (lead d ++ [91] ++ rest) s = (PSectEnd, rest, s') /\
-               pelems (pth s') = x :: E /\ pcurr s' = PSectEnd.
+               pelems (pth s') = x :: E /\ pcurr s' = PSectEnd /\ pbin (pth s') = false.
   Proof.
     intros PV RD. unfold format_sep. rewrite (land15_ok prev PV).
     unfold nextvis. rewrite (nextvis_go_ext fs dfmt_fs).
@@ -769,13 +769,13 @@ Section Sep.
     change (sstart fs) with 91. zb. cbn [negb].
     assert (PE : pelems (pth (tick s1 91)) = x :: E).
     { autorewrite with pst. rewrite S1. destruct RD as (R1 & _). exact R1. }
-    rewrite PE. eexists. split; [reflexivity|]. autorewrite with pst. rewrite S1. destruct RD as (R1 & _). auto.
+    rewrite PE. eexists. split; [reflexivity|]. autorewrite with pst. rewrite S1. destruct RD as (R1 & _ & _ & (_ & RN) & _). auto.
   Qed.
 
   Lemma sep_reopen d n rest s :
     wfs n -> ready s [] ->
     exists s', format_sep fs a PSectEnd (hws (d_mid1 d) ++ n ++ hws (d_mid2 d) ++ [93] ++ rest) s = (PSection, rest, s') /\
-               pelems (pth s') = [n] /\ pbuf (pth s') = true /\ pcurr s' = Z.lor PSection PName.
+               pelems (pth s') = [n] /\ bufok (pth s') /\ pcurr s' = Z.lor PSection PName.
   Proof.
     intros WN RD. unfold format_sep. change (Z.land PSectEnd 15 =? PSectEnd) with true. cbv iota.
     assert (RD1 : ready (with_curr s PSection) []).
